@@ -75,9 +75,10 @@ def rule_VA5(ctx, rule):
     kws = {k.arg: ast.unparse(k.value) for k in cs[0].keywords}
     gf = find('maps.interp_edges_to_vol_averages(ex=_g_.fx, ey=__, ez=__, '
               'volumes=__, ox=_grad_[0, ...], oy=__, oz=__)', g)
-    ok = bool(gf) and kws == {ap[0]: 'gradient', ap[1]: 'self.model.grid',
-                              ap[2]: gf[0][1]['_grad_'],
-                              ap[3]: gf[0][1]['_g_'] + '.grid'}
+    fin = find('self._gradient = _G_[__, ..., :__].squeeze()', g)
+    ok = bool(gf) and bool(fin) and kws == {
+        ap[0]: fin[0][1]['_G_'], ap[1]: 'self.model.grid',
+        ap[2]: gf[0][1]['_grad_'], ap[3]: gf[0][1]['_g_'] + '.grid'}
     ctx.check(rule, 'gradient -> _interp_volume_average_adj',
               ok, f'arguments {kws} do not map the gradient on the '
               'computational grid back to the model grid',
